@@ -54,14 +54,7 @@ Fixpoint insert_sorted (x : nat) (l : list nat) : list nat :=
 Definition sort (l : list nat) : list nat := fold_right insert_sorted [] l.
 Definition same_set (a b : list nat) : bool := natlist_eqb (sort (nodup Nat.eq_dec a)) (sort (nodup Nat.eq_dec b)).
 
-Definition op_region (o : op) : nat :=
-  if isolated o then 0 else
-  match o with
-  | EvalName _ | EvalView _ => 1
-  | Getvarpnc _ => 2
-  | SliceDim _ => 3
-  | Clean _ | Query _ => 0
-  end.
+Definition op_region (o : op) : nat := 0.   (* C05_isolation is full strength: no known-defect region *)
 
 Definition checkF (c : case_t) : bool :=
   match c with
